@@ -23,3 +23,6 @@ import SpoxModel.Props.C02
 #print axioms C02.generated_identity_versions_ok
 #print axioms C02.intro_identity_valid
 #print axioms C02.intro_req_14_counterexample
+#print axioms C02.model_opset_covers_both_spellings
+#print axioms C02.model_opset_attained
+#print axioms C02.model_opset_one_entry_per_domain
